@@ -1487,6 +1487,23 @@ func main() {
 		parallel(len(cases), func(i int) { results[i] = runCLI(cases[i], bin, tmpRoot) })
 	case "api":
 		cases, results = genRunAPI(*tier, tmpRoot)
+	case "tx", "scen", "mysql", "pg":
+		// round-5 stages (tx.go, scen.go, server.go): their own case types and oracles
+		var rc int
+		switch *mode {
+		case "tx":
+			rc = txMain(w, *tier, tmpRoot)
+		default:
+			rc = extraMain(*mode, w, *tier, tmpRoot)
+		}
+		if rc != 0 {
+			w.Close()
+			if strings.HasPrefix(tmpRoot, "/dev/shm/verif-c14-") {
+				os.RemoveAll(tmpRoot)
+			}
+			os.Exit(rc)
+		}
+		return
 	default:
 		fmt.Fprintln(os.Stderr, "unknown mode")
 		os.Exit(2)
